@@ -48,8 +48,10 @@ type c22World struct {
 	x        *vsched.X
 	c        *cluster
 	h        *Holder
-	instr    map[string]*ResizeInstruction // by target node id
-	okFrom   map[string]bool               // nodes whose SUCCESS completion was accepted (returned nil)
+	instr    map[string]*ResizeInstruction // by target node id (last job)
+	okFrom   map[string]bool               // nodes whose SUCCESS completion was accepted (returned nil), any job
+	instrJ   map[int64]map[string]bool     // per job: nodes that received an instruction
+	okJ      map[int64]map[string]bool     // per job: nodes whose success completion was accepted
 	jobsSeen map[int64]bool
 	multiRun string // non-empty: two jobs RUNNING at once observed
 	handlerErr []string
@@ -76,6 +78,10 @@ func (w *c22World) SendTo(n *Node, m Message) error {
 		}
 	}
 	w.instr[n.ID] = in
+	if w.instrJ[in.JobID] == nil {
+		w.instrJ[in.JobID] = map[string]bool{}
+	}
+	w.instrJ[in.JobID][n.ID] = true
 	base := map[string]int{"A": 10, "B": 11, "C": 12, "D": 13}[n.ID]
 	node := in.Node
 	jobID := in.JobID
@@ -98,6 +104,10 @@ func (w *c22World) complete(jobID int64, node *Node, errText string) {
 	err := w.c.markResizeInstructionComplete(&ResizeInstructionComplete{JobID: jobID, Node: node, Error: errText})
 	if err == nil && errText == "" {
 		w.okFrom[node.ID] = true
+		if w.okJ[jobID] == nil {
+			w.okJ[jobID] = map[string]bool{}
+		}
+		w.okJ[jobID][node.ID] = true
 	}
 }
 
@@ -131,7 +141,8 @@ func c22Build(sc c22Scenario, x *vsched.X) *c22World {
 	c.Path = dir + "/cluster"
 	c.Topology = newTopology()
 	c.holder = h
-	w := &c22World{sc: sc, x: x, c: c, h: h, instr: map[string]*ResizeInstruction{}, okFrom: map[string]bool{}}
+	w := &c22World{sc: sc, x: x, c: c, h: h, instr: map[string]*ResizeInstruction{}, okFrom: map[string]bool{},
+		instrJ: map[int64]map[string]bool{}, okJ: map[int64]map[string]bool{}}
 	c.broadcaster = w
 	for _, id := range []string{"A", "B"} {
 		n := c22Node(id)
@@ -304,15 +315,30 @@ func TestVerif_C22(t *testing.T) {
 				if sc.leave {
 					start = "ABC"
 				}
-				if members != start {
-					for id, in := range w.instr {
-						_ = in
-						if !w.okFrom[id] && strings.Contains(members, id) {
-							// a node that received an instruction for the job but never reported success
-							c.Violate("membership-changed-without-all-success "+key, cs, end+" instruction-holder "+id+" did not report success", "member list unchanged")
+				// Judged per job (several jobs may have run, e.g. join C aborted, then join D): a job that
+				// ended DONE is the only thing that may change the member list, and it may do so only if
+				// every node that received one of ITS instructions reported success for IT.
+				doneJobs := 0
+				for id, j := range cl.jobs {
+					if j.state != resizeJobStateDone {
+						continue
+					}
+					doneJobs++
+					var holders []string
+					for n := range w.instrJ[id] {
+						holders = append(holders, n)
+					}
+					sort.Strings(holders)
+					for _, n := range holders {
+						if !w.okJ[id][n] {
+							c.Violate("membership-changed-without-all-success "+key, cs, end+fmt.Sprintf(" job %s finished DONE but instruction-holder %s did not report success for it", j.action, n), "job not completed")
 							return false
 						}
 					}
+				}
+				if members != start && doneJobs == 0 {
+					c.Violate("membership-changed-without-completed-job "+key, cs, end, "member list unchanged")
+					return false
 				}
 				if jobEnded && cl.state == ClusterStateResizing {
 					c.Violate("stuck-in-RESIZING "+key, cs, end, "cluster leaves RESIZING when the job has ended (all handlers returned, horizon of fake time elapsed)")
